@@ -3249,7 +3249,9 @@ func (a *Agent) TaskDispatch(RequestID uint32, CommandID uint32, Parser *parser.
 					Output["Message"] = fmt.Sprintf("Current directory: %v", Path)
 					a.RequestCompleted(RequestID)
 				} else {
+					// the agent could not query the directory: it reported the error and this empty answer ends the task
 					logger.Debug(fmt.Sprintf("Agent: %x, Command: COMMAND_FS - DEMON_COMMAND_FS_GET_PWD, Invalid packet", AgentID))
+					a.RequestCompleted(RequestID)
 				}
 
 				break
@@ -3601,6 +3603,9 @@ func (a *Agent) TaskDispatch(RequestID uint32, CommandID uint32, Parser *parser.
 				Message["Message"] = "Failed to inject reflective dll: " + String
 			}
 
+			// the result is the last package the agent sends for this task
+			a.RequestCompleted(RequestID)
+
 			teamserver.AgentConsole(a.NameID, HAVOC_CONSOLE_MESSAGE, Message)
 		} else {
 			logger.Debug(fmt.Sprintf("Agent: %x, Command: COMMAND_INJECT_DLL, Invalid packet", AgentID))
@@ -3629,6 +3634,12 @@ func (a *Agent) TaskDispatch(RequestID uint32, CommandID uint32, Parser *parser.
 
 				Message["Type"] = "Error"
 				Message["Message"] = "Failed to spawned reflective dll: " + String
+
+				// no process was spawned: nothing else follows for this task.
+				// otherwise the spawned process is a tracked job and its end is reported later
+				if Status == 0x1003 {
+					a.RequestCompleted(RequestID)
+				}
 			}
 
 			teamserver.AgentConsole(a.NameID, HAVOC_CONSOLE_MESSAGE, Message)
@@ -3917,7 +3928,9 @@ func (a *Agent) TaskDispatch(RequestID uint32, CommandID uint32, Parser *parser.
 					}
 					a.RequestCompleted(RequestID)
 				} else {
+					// the agent could not open the process: this empty answer ends the task
 					logger.Debug(fmt.Sprintf("Agent: %x, Command: COMMAND_PROC - DEMON_COMMAND_PROC_MEMORY, Invalid packet", AgentID))
+					a.RequestCompleted(RequestID)
 				}
 
 				break
@@ -4483,7 +4496,9 @@ func (a *Agent) TaskDispatch(RequestID uint32, CommandID uint32, Parser *parser.
 					}
 					a.RequestCompleted(RequestID)
 				} else {
+					// the agent has no token handle: it reported the error and this empty answer ends the task
 					logger.Debug(fmt.Sprintf("Agent: %x, Command: COMMAND_TOKEN - DEMON_COMMAND_TOKEN_GET_UID, Invalid packet", AgentID))
+					a.RequestCompleted(RequestID)
 				}
 
 				break
@@ -4651,6 +4666,7 @@ func (a *Agent) TaskDispatch(RequestID uint32, CommandID uint32, Parser *parser.
 					} else {
 						Output["Type"] = typeError
 						Output["Message"] = "Failed to list existing tokens"
+						a.RequestCompleted(RequestID)
 					}
 				} else {
 					logger.Debug(fmt.Sprintf("Agent: %x, Command: COMMAND_TOKEN - DEMON_COMMAND_TOKEN_FIND_TOKENS, Invalid packet", AgentID))
@@ -5223,6 +5239,9 @@ func (a *Agent) TaskDispatch(RequestID uint32, CommandID uint32, Parser *parser.
 				if Parser.CanIRead([]parser.ReadType{parser.ReadInt32}) {
 					var Success = Parser.ParseInt32()
 
+					// the agent answers a connect task with this one package
+					a.RequestCompleted(RequestID)
+
 					logger.Debug(fmt.Sprintf("Agent: %x, Command: COMMAND_PIVOT - DEMON_PIVOT_SMB_CONNECT, Success: %d", AgentID, Success))
 
 					// if we successfully connected to the SMB named pipe
@@ -5674,6 +5693,9 @@ func (a *Agent) TaskDispatch(RequestID uint32, CommandID uint32, Parser *parser.
 
 					LclString = common.Int32ToIpString(int64(LclAddr))
 					FwdString = common.Int32ToIpString(int64(FwdAddr))
+
+					// either way this answer ends the task
+					a.RequestCompleted(RequestID)
 
 					if Success == win32.TRUE {
 						a.Console(teamserver.AgentConsole, "Info", fmt.Sprintf("Started reverse port forward on %s:%d to %s:%d [Id: %x]", LclString, LclPort, FwdString, FwdPort, SocktID), "")
@@ -6345,6 +6367,7 @@ func (a *Agent) TaskDispatch(RequestID uint32, CommandID uint32, Parser *parser.
 							"Type":    "Erro",
 							"Message": "Failed to list all kerberos tickets",
 						}
+						a.RequestCompleted(RequestID)
 					}
 				} else {
 					logger.Debug(fmt.Sprintf("Agent: %x, Command: COMMAND_KERBEROS  - KERBEROS_COMMAND_KLIST, Invalid packet", AgentID))
